@@ -427,7 +427,10 @@ struct RegisterAllocator<const N: usize> {
 
 impl<const N: usize> RegisterAllocator<N> {
     #[verifier::external_body]
-    fn new(size: usize) -> Self {
+    fn new(size: usize) -> (r: Self)
+        requires 3 <= N <= 255, size < u32::MAX
+        ensures r.wf(), r.allocations@ == Seq::new(size as nat, |i: int| UNASSIGNED), r.out.tape@.len() == 0,
+    {
         assert!(N <= u8::MAX as usize);
         Self {
             allocations: vec![UNASSIGNED; size],
@@ -472,7 +475,9 @@ impl<const N: usize> RegisterAllocator<N> {
     }
     #[verifier::external_body]
 
-    fn finalize(&mut self) -> RegTape {
+    fn finalize(&mut self) -> (r: RegTape)
+        ensures r.tape@ == old(self).out.tape@, r.slot_count == old(self).out.slot_count,
+    {
         std::mem::take(&mut self.out)
     }
 
@@ -817,32 +822,133 @@ impl<const N: usize> RegisterAllocator<N> {
             }
         }
     }
-    fn op_reg(&mut self, op: SsaOp) {
+    fn op_reg(&mut self, op: SsaOp) 
+        requires old(self).wf(), ssa_kind(op) == 2, old(self).op_pre(op),
+        ensures final(self).op_post(old(self), op),
+    {
         match op {
-            SsaOp::NegReg(out, arg) => self.op_reg_fn(out, arg, |o: u8, a: u8| -> (r: RegOp) ensures r == RegOp::NegReg(o, a) { RegOp::NegReg(o, a) }),
-            SsaOp::AbsReg(out, arg) => self.op_reg_fn(out, arg, |o: u8, a: u8| -> (r: RegOp) ensures r == RegOp::AbsReg(o, a) { RegOp::AbsReg(o, a) }),
-            SsaOp::RecipReg(out, arg) => self.op_reg_fn(out, arg, |o: u8, a: u8| -> (r: RegOp) ensures r == RegOp::RecipReg(o, a) { RegOp::RecipReg(o, a) }),
-            SsaOp::SqrtReg(out, arg) => self.op_reg_fn(out, arg, |o: u8, a: u8| -> (r: RegOp) ensures r == RegOp::SqrtReg(o, a) { RegOp::SqrtReg(o, a) }),
-            SsaOp::SquareReg(out, arg) => self.op_reg_fn(out, arg, |o: u8, a: u8| -> (r: RegOp) ensures r == RegOp::SquareReg(o, a) { RegOp::SquareReg(o, a) }),
-            SsaOp::FloorReg(out, arg) => self.op_reg_fn(out, arg, |o: u8, a: u8| -> (r: RegOp) ensures r == RegOp::FloorReg(o, a) { RegOp::FloorReg(o, a) }),
-            SsaOp::CeilReg(out, arg) => self.op_reg_fn(out, arg, |o: u8, a: u8| -> (r: RegOp) ensures r == RegOp::CeilReg(o, a) { RegOp::CeilReg(o, a) }),
-            SsaOp::RoundReg(out, arg) => self.op_reg_fn(out, arg, |o: u8, a: u8| -> (r: RegOp) ensures r == RegOp::RoundReg(o, a) { RegOp::RoundReg(o, a) }),
-            SsaOp::SinReg(out, arg) => self.op_reg_fn(out, arg, |o: u8, a: u8| -> (r: RegOp) ensures r == RegOp::SinReg(o, a) { RegOp::SinReg(o, a) }),
-            SsaOp::CosReg(out, arg) => self.op_reg_fn(out, arg, |o: u8, a: u8| -> (r: RegOp) ensures r == RegOp::CosReg(o, a) { RegOp::CosReg(o, a) }),
-            SsaOp::TanReg(out, arg) => self.op_reg_fn(out, arg, |o: u8, a: u8| -> (r: RegOp) ensures r == RegOp::TanReg(o, a) { RegOp::TanReg(o, a) }),
-            SsaOp::AsinReg(out, arg) => self.op_reg_fn(out, arg, |o: u8, a: u8| -> (r: RegOp) ensures r == RegOp::AsinReg(o, a) { RegOp::AsinReg(o, a) }),
-            SsaOp::AcosReg(out, arg) => self.op_reg_fn(out, arg, |o: u8, a: u8| -> (r: RegOp) ensures r == RegOp::AcosReg(o, a) { RegOp::AcosReg(o, a) }),
-            SsaOp::AtanReg(out, arg) => self.op_reg_fn(out, arg, |o: u8, a: u8| -> (r: RegOp) ensures r == RegOp::AtanReg(o, a) { RegOp::AtanReg(o, a) }),
-            SsaOp::ExpReg(out, arg) => self.op_reg_fn(out, arg, |o: u8, a: u8| -> (r: RegOp) ensures r == RegOp::ExpReg(o, a) { RegOp::ExpReg(o, a) }),
-            SsaOp::LnReg(out, arg) => self.op_reg_fn(out, arg, |o: u8, a: u8| -> (r: RegOp) ensures r == RegOp::LnReg(o, a) { RegOp::LnReg(o, a) }),
-            SsaOp::NotReg(out, arg) => self.op_reg_fn(out, arg, |o: u8, a: u8| -> (r: RegOp) ensures r == RegOp::NotReg(o, a) { RegOp::NotReg(o, a) }),
-            SsaOp::CopyReg(out, arg) => self.op_reg_fn(out, arg, |o: u8, a: u8| -> (r: RegOp) ensures r == RegOp::CopyReg(o, a) { RegOp::CopyReg(o, a) }),
-            SsaOp::RandReg(out, arg) => self.op_reg_fn(out, arg, |o: u8, a: u8| -> (r: RegOp) ensures r == RegOp::RandReg(o, a) { RegOp::RandReg(o, a) }),
+            SsaOp::NegReg(out, arg) => {
+                let f = |o: u8, a: u8| -> (r: RegOp) ensures r == RegOp::NegReg(o, a) { RegOp::NegReg(o, a) };
+                self.op_reg_fn(out, arg, f);
+
+                proof { assert(shape_un(f, f_un(3))); }
+            }
+            SsaOp::AbsReg(out, arg) => {
+                let f = |o: u8, a: u8| -> (r: RegOp) ensures r == RegOp::AbsReg(o, a) { RegOp::AbsReg(o, a) };
+                self.op_reg_fn(out, arg, f);
+
+                proof { assert(shape_un(f, f_un(5))); }
+            }
+            SsaOp::RecipReg(out, arg) => {
+                let f = |o: u8, a: u8| -> (r: RegOp) ensures r == RegOp::RecipReg(o, a) { RegOp::RecipReg(o, a) };
+                self.op_reg_fn(out, arg, f);
+
+                proof { assert(shape_un(f, f_un(7))); }
+            }
+            SsaOp::SqrtReg(out, arg) => {
+                let f = |o: u8, a: u8| -> (r: RegOp) ensures r == RegOp::SqrtReg(o, a) { RegOp::SqrtReg(o, a) };
+                self.op_reg_fn(out, arg, f);
+
+                proof { assert(shape_un(f, f_un(9))); }
+            }
+            SsaOp::SquareReg(out, arg) => {
+                let f = |o: u8, a: u8| -> (r: RegOp) ensures r == RegOp::SquareReg(o, a) { RegOp::SquareReg(o, a) };
+                self.op_reg_fn(out, arg, f);
+
+                proof { assert(shape_un(f, f_un(11))); }
+            }
+            SsaOp::FloorReg(out, arg) => {
+                let f = |o: u8, a: u8| -> (r: RegOp) ensures r == RegOp::FloorReg(o, a) { RegOp::FloorReg(o, a) };
+                self.op_reg_fn(out, arg, f);
+
+                proof { assert(shape_un(f, f_un(13))); }
+            }
+            SsaOp::CeilReg(out, arg) => {
+                let f = |o: u8, a: u8| -> (r: RegOp) ensures r == RegOp::CeilReg(o, a) { RegOp::CeilReg(o, a) };
+                self.op_reg_fn(out, arg, f);
+
+                proof { assert(shape_un(f, f_un(15))); }
+            }
+            SsaOp::RoundReg(out, arg) => {
+                let f = |o: u8, a: u8| -> (r: RegOp) ensures r == RegOp::RoundReg(o, a) { RegOp::RoundReg(o, a) };
+                self.op_reg_fn(out, arg, f);
+
+                proof { assert(shape_un(f, f_un(17))); }
+            }
+            SsaOp::SinReg(out, arg) => {
+                let f = |o: u8, a: u8| -> (r: RegOp) ensures r == RegOp::SinReg(o, a) { RegOp::SinReg(o, a) };
+                self.op_reg_fn(out, arg, f);
+
+                proof { assert(shape_un(f, f_un(19))); }
+            }
+            SsaOp::CosReg(out, arg) => {
+                let f = |o: u8, a: u8| -> (r: RegOp) ensures r == RegOp::CosReg(o, a) { RegOp::CosReg(o, a) };
+                self.op_reg_fn(out, arg, f);
+
+                proof { assert(shape_un(f, f_un(21))); }
+            }
+            SsaOp::TanReg(out, arg) => {
+                let f = |o: u8, a: u8| -> (r: RegOp) ensures r == RegOp::TanReg(o, a) { RegOp::TanReg(o, a) };
+                self.op_reg_fn(out, arg, f);
+
+                proof { assert(shape_un(f, f_un(23))); }
+            }
+            SsaOp::AsinReg(out, arg) => {
+                let f = |o: u8, a: u8| -> (r: RegOp) ensures r == RegOp::AsinReg(o, a) { RegOp::AsinReg(o, a) };
+                self.op_reg_fn(out, arg, f);
+
+                proof { assert(shape_un(f, f_un(25))); }
+            }
+            SsaOp::AcosReg(out, arg) => {
+                let f = |o: u8, a: u8| -> (r: RegOp) ensures r == RegOp::AcosReg(o, a) { RegOp::AcosReg(o, a) };
+                self.op_reg_fn(out, arg, f);
+
+                proof { assert(shape_un(f, f_un(27))); }
+            }
+            SsaOp::AtanReg(out, arg) => {
+                let f = |o: u8, a: u8| -> (r: RegOp) ensures r == RegOp::AtanReg(o, a) { RegOp::AtanReg(o, a) };
+                self.op_reg_fn(out, arg, f);
+
+                proof { assert(shape_un(f, f_un(29))); }
+            }
+            SsaOp::ExpReg(out, arg) => {
+                let f = |o: u8, a: u8| -> (r: RegOp) ensures r == RegOp::ExpReg(o, a) { RegOp::ExpReg(o, a) };
+                self.op_reg_fn(out, arg, f);
+
+                proof { assert(shape_un(f, f_un(31))); }
+            }
+            SsaOp::LnReg(out, arg) => {
+                let f = |o: u8, a: u8| -> (r: RegOp) ensures r == RegOp::LnReg(o, a) { RegOp::LnReg(o, a) };
+                self.op_reg_fn(out, arg, f);
+
+                proof { assert(shape_un(f, f_un(33))); }
+            }
+            SsaOp::NotReg(out, arg) => {
+                let f = |o: u8, a: u8| -> (r: RegOp) ensures r == RegOp::NotReg(o, a) { RegOp::NotReg(o, a) };
+                self.op_reg_fn(out, arg, f);
+
+                proof { assert(shape_un(f, f_un(35))); }
+            }
+            SsaOp::CopyReg(out, arg) => {
+                let f = |o: u8, a: u8| -> (r: RegOp) ensures r == RegOp::CopyReg(o, a) { RegOp::CopyReg(o, a) };
+                self.op_reg_fn(out, arg, f);
+
+                proof { assert(shape_un(f, f_id())); }
+            }
+            SsaOp::RandReg(out, arg) => {
+                let f = |o: u8, a: u8| -> (r: RegOp) ensures r == RegOp::RandReg(o, a) { RegOp::RandReg(o, a) };
+                self.op_reg_fn(out, arg, f);
+
+                proof { assert(shape_un(f, f_un(37))); }
+            }
             _ => panic!(),
         }
     }
 
-    fn op(&mut self, op: SsaOp) {
+    fn op(&mut self, op: SsaOp) 
+        requires old(self).wf(), old(self).op_pre(op),
+        ensures final(self).op_post(old(self), op),
+    {
         match op {
             SsaOp::Output(reg, i) => self.op_output(reg, i),
             SsaOp::Input(out, i) => self.op_input(out, i),
@@ -998,6 +1104,9 @@ impl<const N: usize> RegisterAllocator<N> {
             forall|a: u8, b: u8, r: RegOp, sl: int| #[trigger] op.ensures((a, b), r) && (a as int) < N && (b as int) < N ==> #[trigger] op_ok(r, N as int, sl),
         ensures final(self).wf(),
             final(self).allocations@.len() == old(self).allocations@.len(),
+            final(self).allocations@[out as int] == UNASSIGNED, final(self).allocations@[arg as int] != UNASSIGNED,
+            forall|s: int| 0 <= s < old(self).allocations@.len() && s != out && s != arg ==>
+                (#[trigger] final(self).allocations@[s] == UNASSIGNED <==> old(self).allocations@[s] == UNASSIGNED),
             final(self).out.tape@.len() >= old(self).out.tape@.len(),
             forall|k: int| 0 <= k < old(self).out.tape@.len() ==> #[trigger] final(self).out.tape@[k] == old(self).out.tape@[k],
             forall|f: spec_fn(f32) -> f32| #[trigger] shape_un(op, f) ==>
@@ -1126,20 +1235,83 @@ impl<const N: usize> RegisterAllocator<N> {
             }
         }
     }
-    fn op_reg_reg(&mut self, op: SsaOp) {
+    fn op_reg_reg(&mut self, op: SsaOp) 
+        requires old(self).wf(), ssa_kind(op) == 4, old(self).op_pre(op),
+        ensures final(self).op_post(old(self), op),
+    {
         match op {
-            SsaOp::AddRegReg(out, lhs, rhs) => self.op_reg_reg_k(out, lhs, rhs, |o: u8, a: u8, b: u8| -> (r: RegOp) ensures r == RegOp::AddRegReg(o, a, b) { RegOp::AddRegReg(o, a, b) }),
-            SsaOp::SubRegReg(out, lhs, rhs) => self.op_reg_reg_k(out, lhs, rhs, |o: u8, a: u8, b: u8| -> (r: RegOp) ensures r == RegOp::SubRegReg(o, a, b) { RegOp::SubRegReg(o, a, b) }),
-            SsaOp::MulRegReg(out, lhs, rhs) => self.op_reg_reg_k(out, lhs, rhs, |o: u8, a: u8, b: u8| -> (r: RegOp) ensures r == RegOp::MulRegReg(o, a, b) { RegOp::MulRegReg(o, a, b) }),
-            SsaOp::DivRegReg(out, lhs, rhs) => self.op_reg_reg_k(out, lhs, rhs, |o: u8, a: u8, b: u8| -> (r: RegOp) ensures r == RegOp::DivRegReg(o, a, b) { RegOp::DivRegReg(o, a, b) }),
-            SsaOp::AtanRegReg(out, lhs, rhs) => self.op_reg_reg_k(out, lhs, rhs, |o: u8, a: u8, b: u8| -> (r: RegOp) ensures r == RegOp::AtanRegReg(o, a, b) { RegOp::AtanRegReg(o, a, b) }),
-            SsaOp::MinRegReg(out, lhs, rhs) => self.op_reg_reg_k(out, lhs, rhs, |o: u8, a: u8, b: u8| -> (r: RegOp) ensures r == RegOp::MinRegReg(o, a, b) { RegOp::MinRegReg(o, a, b) }),
-            SsaOp::MaxRegReg(out, lhs, rhs) => self.op_reg_reg_k(out, lhs, rhs, |o: u8, a: u8, b: u8| -> (r: RegOp) ensures r == RegOp::MaxRegReg(o, a, b) { RegOp::MaxRegReg(o, a, b) }),
-            SsaOp::CompareRegReg(out, lhs, rhs) => self.op_reg_reg_k(out, lhs, rhs, |o: u8, a: u8, b: u8| -> (r: RegOp) ensures r == RegOp::CompareRegReg(o, a, b) { RegOp::CompareRegReg(o, a, b) }),
-            SsaOp::ModRegReg(out, lhs, rhs) => self.op_reg_reg_k(out, lhs, rhs, |o: u8, a: u8, b: u8| -> (r: RegOp) ensures r == RegOp::ModRegReg(o, a, b) { RegOp::ModRegReg(o, a, b) }),
-            SsaOp::AndRegReg(out, lhs, rhs) => self.op_reg_reg_k(out, lhs, rhs, |o: u8, a: u8, b: u8| -> (r: RegOp) ensures r == RegOp::AndRegReg(o, a, b) { RegOp::AndRegReg(o, a, b) }),
-            SsaOp::OrRegReg(out, lhs, rhs) => self.op_reg_reg_k(out, lhs, rhs, |o: u8, a: u8, b: u8| -> (r: RegOp) ensures r == RegOp::OrRegReg(o, a, b) { RegOp::OrRegReg(o, a, b) }),
-            SsaOp::MixRegReg(out, lhs, rhs) => self.op_reg_reg_k(out, lhs, rhs, |o: u8, a: u8, b: u8| -> (r: RegOp) ensures r == RegOp::MixRegReg(o, a, b) { RegOp::MixRegReg(o, a, b) }),
+            SsaOp::AddRegReg(out, lhs, rhs) => {
+                let f = |o: u8, a: u8, b: u8| -> (r: RegOp) ensures r == RegOp::AddRegReg(o, a, b) { RegOp::AddRegReg(o, a, b) };
+                self.op_reg_reg_k(out, lhs, rhs, f);
+
+                proof { assert(shape_bin(f, g_bin(38))); }
+            }
+            SsaOp::SubRegReg(out, lhs, rhs) => {
+                let f = |o: u8, a: u8, b: u8| -> (r: RegOp) ensures r == RegOp::SubRegReg(o, a, b) { RegOp::SubRegReg(o, a, b) };
+                self.op_reg_reg_k(out, lhs, rhs, f);
+
+                proof { assert(shape_bin(f, g_bin(44))); }
+            }
+            SsaOp::MulRegReg(out, lhs, rhs) => {
+                let f = |o: u8, a: u8, b: u8| -> (r: RegOp) ensures r == RegOp::MulRegReg(o, a, b) { RegOp::MulRegReg(o, a, b) };
+                self.op_reg_reg_k(out, lhs, rhs, f);
+
+                proof { assert(shape_bin(f, g_bin(40))); }
+            }
+            SsaOp::DivRegReg(out, lhs, rhs) => {
+                let f = |o: u8, a: u8, b: u8| -> (r: RegOp) ensures r == RegOp::DivRegReg(o, a, b) { RegOp::DivRegReg(o, a, b) };
+                self.op_reg_reg_k(out, lhs, rhs, f);
+
+                proof { assert(shape_bin(f, g_bin(42))); }
+            }
+            SsaOp::AtanRegReg(out, lhs, rhs) => {
+                let f = |o: u8, a: u8, b: u8| -> (r: RegOp) ensures r == RegOp::AtanRegReg(o, a, b) { RegOp::AtanRegReg(o, a, b) };
+                self.op_reg_reg_k(out, lhs, rhs, f);
+
+                proof { assert(shape_bin(f, g_bin(28))); }
+            }
+            SsaOp::MinRegReg(out, lhs, rhs) => {
+                let f = |o: u8, a: u8, b: u8| -> (r: RegOp) ensures r == RegOp::MinRegReg(o, a, b) { RegOp::MinRegReg(o, a, b) };
+                self.op_reg_reg_k(out, lhs, rhs, f);
+
+                proof { assert(shape_bin(f, g_bin(52))); }
+            }
+            SsaOp::MaxRegReg(out, lhs, rhs) => {
+                let f = |o: u8, a: u8, b: u8| -> (r: RegOp) ensures r == RegOp::MaxRegReg(o, a, b) { RegOp::MaxRegReg(o, a, b) };
+                self.op_reg_reg_k(out, lhs, rhs, f);
+
+                proof { assert(shape_bin(f, g_bin(54))); }
+            }
+            SsaOp::CompareRegReg(out, lhs, rhs) => {
+                let f = |o: u8, a: u8, b: u8| -> (r: RegOp) ensures r == RegOp::CompareRegReg(o, a, b) { RegOp::CompareRegReg(o, a, b) };
+                self.op_reg_reg_k(out, lhs, rhs, f);
+
+                proof { assert(shape_bin(f, g_bin(48))); }
+            }
+            SsaOp::ModRegReg(out, lhs, rhs) => {
+                let f = |o: u8, a: u8, b: u8| -> (r: RegOp) ensures r == RegOp::ModRegReg(o, a, b) { RegOp::ModRegReg(o, a, b) };
+                self.op_reg_reg_k(out, lhs, rhs, f);
+
+                proof { assert(shape_bin(f, g_bin(46))); }
+            }
+            SsaOp::AndRegReg(out, lhs, rhs) => {
+                let f = |o: u8, a: u8, b: u8| -> (r: RegOp) ensures r == RegOp::AndRegReg(o, a, b) { RegOp::AndRegReg(o, a, b) };
+                self.op_reg_reg_k(out, lhs, rhs, f);
+
+                proof { assert(shape_bin(f, g_bin(56))); }
+            }
+            SsaOp::OrRegReg(out, lhs, rhs) => {
+                let f = |o: u8, a: u8, b: u8| -> (r: RegOp) ensures r == RegOp::OrRegReg(o, a, b) { RegOp::OrRegReg(o, a, b) };
+                self.op_reg_reg_k(out, lhs, rhs, f);
+
+                proof { assert(shape_bin(f, g_bin(58))); }
+            }
+            SsaOp::MixRegReg(out, lhs, rhs) => {
+                let f = |o: u8, a: u8, b: u8| -> (r: RegOp) ensures r == RegOp::MixRegReg(o, a, b) { RegOp::MixRegReg(o, a, b) };
+                self.op_reg_reg_k(out, lhs, rhs, f);
+
+                proof { assert(shape_bin(f, g_bin(50))); }
+            }
             _ => panic!(),
         }
     }
@@ -1152,6 +1324,9 @@ impl<const N: usize> RegisterAllocator<N> {
             forall|a: u8, b: u8, c: u8, r: RegOp, sl: int| #[trigger] op.ensures((a, b, c), r) && (a as int) < N && (b as int) < N && (c as int) < N ==> #[trigger] op_ok(r, N as int, sl),
         ensures final(self).wf(),
             final(self).allocations@.len() == old(self).allocations@.len(),
+            final(self).allocations@[out as int] == UNASSIGNED, final(self).allocations@[lhs as int] != UNASSIGNED, final(self).allocations@[rhs as int] != UNASSIGNED,
+            forall|s: int| 0 <= s < old(self).allocations@.len() && s != out && s != lhs && s != rhs ==>
+                (#[trigger] final(self).allocations@[s] == UNASSIGNED <==> old(self).allocations@[s] == UNASSIGNED),
             final(self).out.tape@.len() >= old(self).out.tape@.len(),
             forall|k: int| 0 <= k < old(self).out.tape@.len() ==> #[trigger] final(self).out.tape@[k] == old(self).out.tape@[k],
             forall|g: spec_fn(f32, f32) -> f32| #[trigger] shape_bin(op, g) ==>
@@ -1765,64 +1940,378 @@ impl<const N: usize> RegisterAllocator<N> {
             }
         }
     }
-    fn op_reg_imm(&mut self, op: SsaOp) {
+    fn op_reg_imm(&mut self, op: SsaOp) 
+        requires old(self).wf(), ssa_kind(op) == 3, old(self).op_pre(op),
+        ensures final(self).op_post(old(self), op),
+    {
         match op {
-            SsaOp::AddRegImm(out, arg, imm) => self.op_reg_fn(out, arg, |o: u8, a: u8| -> (r: RegOp) ensures r == RegOp::AddRegImm(o, a, imm) { RegOp::AddRegImm(o, a, imm) }),
-            SsaOp::SubRegImm(out, arg, imm) => self.op_reg_fn(out, arg, |o: u8, a: u8| -> (r: RegOp) ensures r == RegOp::SubRegImm(o, a, imm) { RegOp::SubRegImm(o, a, imm) }),
-            SsaOp::SubImmReg(out, arg, imm) => self.op_reg_fn(out, arg, |o: u8, a: u8| -> (r: RegOp) ensures r == RegOp::SubImmReg(o, a, imm) { RegOp::SubImmReg(o, a, imm) }),
-            SsaOp::MulRegImm(out, arg, imm) => self.op_reg_fn(out, arg, |o: u8, a: u8| -> (r: RegOp) ensures r == RegOp::MulRegImm(o, a, imm) { RegOp::MulRegImm(o, a, imm) }),
-            SsaOp::DivRegImm(out, arg, imm) => self.op_reg_fn(out, arg, |o: u8, a: u8| -> (r: RegOp) ensures r == RegOp::DivRegImm(o, a, imm) { RegOp::DivRegImm(o, a, imm) }),
-            SsaOp::DivImmReg(out, arg, imm) => self.op_reg_fn(out, arg, |o: u8, a: u8| -> (r: RegOp) ensures r == RegOp::DivImmReg(o, a, imm) { RegOp::DivImmReg(o, a, imm) }),
-            SsaOp::AtanRegImm(out, arg, imm) => self.op_reg_fn(out, arg, |o: u8, a: u8| -> (r: RegOp) ensures r == RegOp::AtanRegImm(o, a, imm) { RegOp::AtanRegImm(o, a, imm) }),
-            SsaOp::AtanImmReg(out, arg, imm) => self.op_reg_fn(out, arg, |o: u8, a: u8| -> (r: RegOp) ensures r == RegOp::AtanImmReg(o, a, imm) { RegOp::AtanImmReg(o, a, imm) }),
-            SsaOp::MinRegImm(out, arg, imm) => self.op_reg_fn(out, arg, |o: u8, a: u8| -> (r: RegOp) ensures r == RegOp::MinRegImm(o, a, imm) { RegOp::MinRegImm(o, a, imm) }),
-            SsaOp::MaxRegImm(out, arg, imm) => self.op_reg_fn(out, arg, |o: u8, a: u8| -> (r: RegOp) ensures r == RegOp::MaxRegImm(o, a, imm) { RegOp::MaxRegImm(o, a, imm) }),
-            SsaOp::CompareRegImm(out, arg, imm) => self.op_reg_fn(out, arg, |o: u8, a: u8| -> (r: RegOp) ensures r == RegOp::CompareRegImm(o, a, imm) { RegOp::CompareRegImm(o, a, imm) }),
-            SsaOp::CompareImmReg(out, arg, imm) => self.op_reg_fn(out, arg, |o: u8, a: u8| -> (r: RegOp) ensures r == RegOp::CompareImmReg(o, a, imm) { RegOp::CompareImmReg(o, a, imm) }),
-            SsaOp::ModRegImm(out, arg, imm) => self.op_reg_fn(out, arg, |o: u8, a: u8| -> (r: RegOp) ensures r == RegOp::ModRegImm(o, a, imm) { RegOp::ModRegImm(o, a, imm) }),
-            SsaOp::ModImmReg(out, arg, imm) => self.op_reg_fn(out, arg, |o: u8, a: u8| -> (r: RegOp) ensures r == RegOp::ModImmReg(o, a, imm) { RegOp::ModImmReg(o, a, imm) }),
-            SsaOp::MixRegImm(out, arg, imm) => self.op_reg_fn(out, arg, |o: u8, a: u8| -> (r: RegOp) ensures r == RegOp::MixRegImm(o, a, imm) { RegOp::MixRegImm(o, a, imm) }),
-            SsaOp::MixImmReg(out, arg, imm) => self.op_reg_fn(out, arg, |o: u8, a: u8| -> (r: RegOp) ensures r == RegOp::MixImmReg(o, a, imm) { RegOp::MixImmReg(o, a, imm) }),
-            SsaOp::AndRegImm(out, arg, imm) => self.op_reg_fn(out, arg, |o: u8, a: u8| -> (r: RegOp) ensures r == RegOp::AndRegImm(o, a, imm) { RegOp::AndRegImm(o, a, imm) }),
-            SsaOp::OrRegImm(out, arg, imm) => self.op_reg_fn(out, arg, |o: u8, a: u8| -> (r: RegOp) ensures r == RegOp::OrRegImm(o, a, imm) { RegOp::OrRegImm(o, a, imm) }),
+            SsaOp::AddRegImm(out, arg, imm) => {
+                let f = |o: u8, a: u8| -> (r: RegOp) ensures r == RegOp::AddRegImm(o, a, imm) { RegOp::AddRegImm(o, a, imm) };
+                self.op_reg_fn(out, arg, f);
+
+                proof { assert(shape_un(f, f_ri(38, imm))); }
+            }
+            SsaOp::SubRegImm(out, arg, imm) => {
+                let f = |o: u8, a: u8| -> (r: RegOp) ensures r == RegOp::SubRegImm(o, a, imm) { RegOp::SubRegImm(o, a, imm) };
+                self.op_reg_fn(out, arg, f);
+
+                proof { assert(shape_un(f, f_ri(44, imm))); }
+            }
+            SsaOp::SubImmReg(out, arg, imm) => {
+                let f = |o: u8, a: u8| -> (r: RegOp) ensures r == RegOp::SubImmReg(o, a, imm) { RegOp::SubImmReg(o, a, imm) };
+                self.op_reg_fn(out, arg, f);
+
+                proof { assert(shape_un(f, f_ir(44, imm))); }
+            }
+            SsaOp::MulRegImm(out, arg, imm) => {
+                let f = |o: u8, a: u8| -> (r: RegOp) ensures r == RegOp::MulRegImm(o, a, imm) { RegOp::MulRegImm(o, a, imm) };
+                self.op_reg_fn(out, arg, f);
+
+                proof { assert(shape_un(f, f_ri(40, imm))); }
+            }
+            SsaOp::DivRegImm(out, arg, imm) => {
+                let f = |o: u8, a: u8| -> (r: RegOp) ensures r == RegOp::DivRegImm(o, a, imm) { RegOp::DivRegImm(o, a, imm) };
+                self.op_reg_fn(out, arg, f);
+
+                proof { assert(shape_un(f, f_ri(42, imm))); }
+            }
+            SsaOp::DivImmReg(out, arg, imm) => {
+                let f = |o: u8, a: u8| -> (r: RegOp) ensures r == RegOp::DivImmReg(o, a, imm) { RegOp::DivImmReg(o, a, imm) };
+                self.op_reg_fn(out, arg, f);
+
+                proof { assert(shape_un(f, f_ir(42, imm))); }
+            }
+            SsaOp::AtanRegImm(out, arg, imm) => {
+                let f = |o: u8, a: u8| -> (r: RegOp) ensures r == RegOp::AtanRegImm(o, a, imm) { RegOp::AtanRegImm(o, a, imm) };
+                self.op_reg_fn(out, arg, f);
+
+                proof { assert(shape_un(f, f_ri(28, imm))); }
+            }
+            SsaOp::AtanImmReg(out, arg, imm) => {
+                let f = |o: u8, a: u8| -> (r: RegOp) ensures r == RegOp::AtanImmReg(o, a, imm) { RegOp::AtanImmReg(o, a, imm) };
+                self.op_reg_fn(out, arg, f);
+
+                proof { assert(shape_un(f, f_ir(28, imm))); }
+            }
+            SsaOp::MinRegImm(out, arg, imm) => {
+                let f = |o: u8, a: u8| -> (r: RegOp) ensures r == RegOp::MinRegImm(o, a, imm) { RegOp::MinRegImm(o, a, imm) };
+                self.op_reg_fn(out, arg, f);
+
+                proof { assert(shape_un(f, f_ri(52, imm))); }
+            }
+            SsaOp::MaxRegImm(out, arg, imm) => {
+                let f = |o: u8, a: u8| -> (r: RegOp) ensures r == RegOp::MaxRegImm(o, a, imm) { RegOp::MaxRegImm(o, a, imm) };
+                self.op_reg_fn(out, arg, f);
+
+                proof { assert(shape_un(f, f_ri(54, imm))); }
+            }
+            SsaOp::CompareRegImm(out, arg, imm) => {
+                let f = |o: u8, a: u8| -> (r: RegOp) ensures r == RegOp::CompareRegImm(o, a, imm) { RegOp::CompareRegImm(o, a, imm) };
+                self.op_reg_fn(out, arg, f);
+
+                proof { assert(shape_un(f, f_ri(48, imm))); }
+            }
+            SsaOp::CompareImmReg(out, arg, imm) => {
+                let f = |o: u8, a: u8| -> (r: RegOp) ensures r == RegOp::CompareImmReg(o, a, imm) { RegOp::CompareImmReg(o, a, imm) };
+                self.op_reg_fn(out, arg, f);
+
+                proof { assert(shape_un(f, f_ir(48, imm))); }
+            }
+            SsaOp::ModRegImm(out, arg, imm) => {
+                let f = |o: u8, a: u8| -> (r: RegOp) ensures r == RegOp::ModRegImm(o, a, imm) { RegOp::ModRegImm(o, a, imm) };
+                self.op_reg_fn(out, arg, f);
+
+                proof { assert(shape_un(f, f_ri(46, imm))); }
+            }
+            SsaOp::ModImmReg(out, arg, imm) => {
+                let f = |o: u8, a: u8| -> (r: RegOp) ensures r == RegOp::ModImmReg(o, a, imm) { RegOp::ModImmReg(o, a, imm) };
+                self.op_reg_fn(out, arg, f);
+
+                proof { assert(shape_un(f, f_ir(46, imm))); }
+            }
+            SsaOp::MixRegImm(out, arg, imm) => {
+                let f = |o: u8, a: u8| -> (r: RegOp) ensures r == RegOp::MixRegImm(o, a, imm) { RegOp::MixRegImm(o, a, imm) };
+                self.op_reg_fn(out, arg, f);
+
+                proof { assert(shape_un(f, f_ri(50, imm))); }
+            }
+            SsaOp::MixImmReg(out, arg, imm) => {
+                let f = |o: u8, a: u8| -> (r: RegOp) ensures r == RegOp::MixImmReg(o, a, imm) { RegOp::MixImmReg(o, a, imm) };
+                self.op_reg_fn(out, arg, f);
+
+                proof { assert(shape_un(f, f_ir(50, imm))); }
+            }
+            SsaOp::AndRegImm(out, arg, imm) => {
+                let f = |o: u8, a: u8| -> (r: RegOp) ensures r == RegOp::AndRegImm(o, a, imm) { RegOp::AndRegImm(o, a, imm) };
+                self.op_reg_fn(out, arg, f);
+
+                proof { assert(shape_un(f, f_ri(56, imm))); }
+            }
+            SsaOp::OrRegImm(out, arg, imm) => {
+                let f = |o: u8, a: u8| -> (r: RegOp) ensures r == RegOp::OrRegImm(o, a, imm) { RegOp::OrRegImm(o, a, imm) };
+                self.op_reg_fn(out, arg, f);
+
+                proof { assert(shape_un(f, f_ri(58, imm))); }
+            }
             _ => panic!(),
         }
     }
 
-    fn op_out_only(&mut self, out: u32, op: impl Fn(u8) -> RegOp) {
+    fn op_out_only(&mut self, out: u32, op: impl Fn(u8) -> RegOp) 
+        requires old(self).wf(), (out as int) < old(self).allocations@.len(), old(self).allocations@[out as int] != UNASSIGNED,
+            forall|a: u8| op.requires((a,)),
+            forall|a: u8, r: RegOp, sl: int| #[trigger] op.ensures((a,), r) && (a as int) < N ==> #[trigger] op_ok(r, N as int, sl),
+        ensures final(self).wf(),
+            final(self).allocations@.len() == old(self).allocations@.len(),
+            final(self).allocations@[out as int] == UNASSIGNED,
+            final(self).out.tape@.len() >= old(self).out.tape@.len(),
+            forall|k: int| 0 <= k < old(self).out.tape@.len() ==> #[trigger] final(self).out.tape@[k] == old(self).out.tape@[k],
+            forall|s: int| 0 <= s < old(self).allocations@.len() && s != out ==>
+                (#[trigger] final(self).allocations@[s] == UNASSIGNED <==> old(self).allocations@[s] == UNASSIGNED),
+            forall|c: spec_fn(Seq<f32>) -> f32| #[trigger] shape_out(op, c) ==>
+                simf(final(self).allocations@, old(self).allocations@, final(self).out.tape@, old(self).out.tape@.len() as int, final(self).out.tape@.len() as int, fe_def(out as int, c), id_outs()),
+    {
         let r_x = self.get_out_reg(out);
+
+        let ghost s1 = *self;
+        proof { s1.lemma_reg_unique(out as int); }
         self.out.push(op(r_x));
+
+        let ghost s2 = *self;
+        proof { Self::lemma_push_op(s1, s2, s2.out.tape@.last()); }
         self.release_reg(r_x);
+
+        proof {
+            let o0 = *old(self);
+            let e: Set<int> = Set::empty();
+            let lo = o0.out.tape@.len() as int;
+            let hi = self.out.tape@.len() as int;
+            let mid = s1.out.tape@.len() as int;
+            let rop = self.out.tape@[mid];
+            assert(op.ensures((r_x,), rop));
+            assert forall|c: spec_fn(Seq<f32>) -> f32| #[trigger] shape_out(op, c) implies
+                simf(self.allocations@, o0.allocations@, self.out.tape@, lo, hi, fe_def(out as int, c), id_outs()) by {
+                lemma_step_def(s1.allocations@, self.out.tape@, mid, r_x, out as int, c);
+                lemma_sim_ext(s1.allocations@, o0.allocations@, s1.out.tape@, self.out.tape@, lo, mid, id_env(), id_outs());
+                lemma_sim_then(self.allocations@, s1.allocations@, o0.allocations@, self.out.tape@, lo, mid, hi, fe_def(out as int, c), id_outs());
+            }
+        }
     }
 
-    fn op_copy_imm(&mut self, out: u32, imm: f32) {
+    fn op_copy_imm(&mut self, out: u32, imm: f32) 
+        requires old(self).wf(), (out as int) < old(self).allocations@.len(), old(self).allocations@[out as int] != UNASSIGNED,
+        ensures final(self).wf(),
+            final(self).allocations@.len() == old(self).allocations@.len(),
+            final(self).allocations@[out as int] == UNASSIGNED,
+            final(self).out.tape@.len() >= old(self).out.tape@.len(),
+            forall|k: int| 0 <= k < old(self).out.tape@.len() ==> #[trigger] final(self).out.tape@[k] == old(self).out.tape@[k],
+            forall|s: int| 0 <= s < old(self).allocations@.len() && s != out ==>
+                (#[trigger] final(self).allocations@[s] == UNASSIGNED <==> old(self).allocations@[s] == UNASSIGNED),
+            simf(final(self).allocations@, old(self).allocations@, final(self).out.tape@, old(self).out.tape@.len() as int, final(self).out.tape@.len() as int, fe_def(out as int, c_imm(imm)), id_outs()),
+    {
         let f = |o: u8| -> (r: RegOp) ensures r == RegOp::CopyImm(o, imm) { RegOp::CopyImm(o, imm) };
         self.op_out_only(out, f);
+
+        proof { assert(shape_out(f, c_imm(imm))); }
     }
 
-    fn op_input(&mut self, out: u32, i: u32) {
+    fn op_input(&mut self, out: u32, i: u32) 
+        requires old(self).wf(), (out as int) < old(self).allocations@.len(), old(self).allocations@[out as int] != UNASSIGNED,
+        ensures final(self).wf(),
+            final(self).allocations@.len() == old(self).allocations@.len(),
+            final(self).allocations@[out as int] == UNASSIGNED,
+            final(self).out.tape@.len() >= old(self).out.tape@.len(),
+            forall|k: int| 0 <= k < old(self).out.tape@.len() ==> #[trigger] final(self).out.tape@[k] == old(self).out.tape@[k],
+            forall|s: int| 0 <= s < old(self).allocations@.len() && s != out ==>
+                (#[trigger] final(self).allocations@[s] == UNASSIGNED <==> old(self).allocations@[s] == UNASSIGNED),
+            simf(final(self).allocations@, old(self).allocations@, final(self).out.tape@, old(self).out.tape@.len() as int, final(self).out.tape@.len() as int, fe_def(out as int, c_inp(i as int)), id_outs()),
+    {
         let f = |o: u8| -> (r: RegOp) ensures r == RegOp::Input(o, i) { RegOp::Input(o, i) };
         self.op_out_only(out, f);
+
+        proof { assert(shape_out(f, c_inp(i as int))); }
     }
 
-    fn op_output(&mut self, arg: u32, i: u32) {
+    fn op_output(&mut self, arg: u32, i: u32) 
+        requires old(self).wf(), (arg as int) < old(self).allocations@.len(),
+        ensures final(self).wf(),
+            final(self).allocations@.len() == old(self).allocations@.len(),
+            final(self).allocations@[arg as int] != UNASSIGNED,
+            final(self).out.tape@.len() >= old(self).out.tape@.len(),
+            forall|k: int| 0 <= k < old(self).out.tape@.len() ==> #[trigger] final(self).out.tape@[k] == old(self).out.tape@[k],
+            forall|s: int| 0 <= s < old(self).allocations@.len() && s != arg ==>
+                (#[trigger] final(self).allocations@[s] == UNASSIGNED <==> old(self).allocations@[s] == UNASSIGNED),
+            simf(final(self).allocations@, old(self).allocations@, final(self).out.tape@, old(self).out.tape@.len() as int, final(self).out.tape@.len() as int, id_env(), fo_output(i as int, arg as int)),
+    {
         match self.get_allocation(arg) {
-            Allocation::Register(r_y) => self.out.push(RegOp::Output(r_y, i)),
+            Allocation::Register(r_y) => {
+
+                let ghost s1 = *self;
+                proof { s1.lemma_bound_reg(arg as int); }
+                self.out.push(RegOp::Output(r_y, i));
+
+                proof {
+                    let o0 = *old(self);
+                    let lo = o0.out.tape@.len() as int;
+                    Self::lemma_push_op(s1, *self, RegOp::Output(r_y, i));
+                    assert(self.out.tape@[lo] == RegOp::Output(r_y, i));
+                    lemma_step_output(self.allocations@, self.out.tape@, lo, r_y, i, arg as int);
+                }
+            }
             Allocation::Memory(m_y) => {
+
+                let ghost s1 = *self;
+                proof { s1.lemma_oldest_bound(Set::empty()); }
                 let r_a = self.get_register();
+
+                let ghost s2 = *self;
+                proof {
+                    assert(s2.allocations@[arg as int] == m_y);
+                    s2.lemma_mem_unique(arg as int);
+                    s2.lemma_not_stale(arg as int, Set::empty());
+                }
                 self.push_store(r_a, m_y);
+
+                let ghost s3 = *self;
                 self.out.push(RegOp::Output(r_a, i));
+
+                let ghost s4 = *self;
+                proof { Self::lemma_push_op(s3, s4, RegOp::Output(r_a, i)); }
                 self.bind_register(arg, r_a);
+
+                proof {
+                    let o0 = *old(self);
+                    let e: Set<int> = Set::empty();
+                    let lo = o0.out.tape@.len() as int;
+                    let hi = self.out.tape@.len() as int;
+                    assert(s3.stale_only(e.insert(arg as int)));
+                    assert(e.insert(arg as int).remove(arg as int) =~= e);
+                    assert(s2.unbound_in(e.insert(r_a as int)));
+                    assert(e.insert(r_a as int).remove(r_a as int) =~= e);
+                    let mid = s2.out.tape@.len() as int;
+                    assert(self.out.tape@[mid] == RegOp::Store(r_a, m_y));
+                    assert(self.out.tape@[mid + 1] == RegOp::Output(r_a, i));
+                    let a2 = self.allocations@;
+                    lemma_step_output(a2, self.out.tape@, mid + 1, r_a, i, arg as int);
+                    lemma_step_store(s2.allocations@, self.out.tape@, mid, r_a, m_y, arg as int, N as int);
+                    lemma_sim_ext(s2.allocations@, o0.allocations@, s2.out.tape@, self.out.tape@, lo, mid, id_env(), id_outs());
+                    lemma_sim_then(a2, s2.allocations@, o0.allocations@, self.out.tape@, lo, mid, mid + 1, id_env(), id_outs());
+                    lemma_sim_then(a2, a2, o0.allocations@, self.out.tape@, lo, mid + 1, hi, id_env(), fo_output(i as int, arg as int));
+                }
             }
             Allocation::Unassigned => {
+
+                let ghost s1 = *self;
+                proof { s1.lemma_oldest_bound(Set::empty()); }
                 let r_a = self.get_register();
+
+                let ghost s2 = *self;
+                proof { assert(s2.allocations@[arg as int] == UNASSIGNED); }
                 self.out.push(RegOp::Output(r_a, i));
+
+                let ghost s4 = *self;
+                proof { Self::lemma_push_op(s2, s4, RegOp::Output(r_a, i)); }
                 self.bind_register(arg, r_a);
+
+                proof {
+                    let o0 = *old(self);
+                    let e: Set<int> = Set::empty();
+                    let lo = o0.out.tape@.len() as int;
+                    let hi = self.out.tape@.len() as int;
+                    assert(e.remove(arg as int) =~= e);
+                    assert(s2.unbound_in(e.insert(r_a as int)));
+                    assert(e.insert(r_a as int).remove(r_a as int) =~= e);
+                    let mid = s2.out.tape@.len() as int;
+                    assert(self.out.tape@[mid] == RegOp::Output(r_a, i));
+                    let a2 = self.allocations@;
+                    lemma_step_output(a2, self.out.tape@, mid, r_a, i, arg as int);
+                    lemma_sim_drop(a2, arg as int, self.out.tape@, mid);
+                    assert(a2.update(arg as int, UNASSIGNED) =~= s2.allocations@);
+                    lemma_sim_ext(s2.allocations@, o0.allocations@, s2.out.tape@, self.out.tape@, lo, mid, id_env(), id_outs());
+                    lemma_sim_then(a2, s2.allocations@, o0.allocations@, self.out.tape@, lo, mid, mid, id_env(), id_outs());
+                    lemma_sim_then(a2, a2, o0.allocations@, self.out.tape@, lo, mid, hi, id_env(), fo_output(i as int, arg as int));
+                }
             }
         }
     }
 }
 
+
+struct SsaTape {
+    tape: Vec<SsaOp>,
+    choice_count: usize,
+    output_count: usize,
+}
+impl SsaTape {
+    fn len(&self) -> (r: usize)
+        ensures r == self.tape@.len(),
+    {
+        self.tape.len()
+    }
+}
+impl RegTape {
+    fn new<const N: usize>(ssa: &SsaTape) -> (r: Self)
+        requires 3 <= N <= 255, ssa.tape@.len() < u32::MAX, ssa_wf(ssa.tape@, ssa.tape@.len() as int),
+        ensures
+            // the register tape computes exactly what the SSA tape computes, from ANY initial register/memory contents
+            forall|st: St, env: Env, inp: Seq<f32>|
+                (#[trigger] reg_run_rev(r.tape@, 0, r.tape@.len() as int, st, inp)).outs
+                    == (#[trigger] ssa_run_rev(ssa.tape@, 0, ssa.tape@.len() as int, Ss { env: env, outs: st.outs }, inp)).outs,
+    {
+        let mut alloc = RegisterAllocator::<N>::new(ssa.len());
+        // R-iter: `for &op in ssa.iter() { alloc.op(op) }`
+        let mut k_: usize = 0;
+
+        let ghost a0 = alloc.allocations@;
+        let ghost ops = ssa.tape@;
+        proof { lemma_sim_start(a0, alloc.out.tape@, ops); }
+        while k_ < ssa.tape.len()
+            invariant
+                3 <= N <= 255, ops == ssa.tape@, ops.len() < u32::MAX, ssa_wf(ops, ops.len() as int),
+                0 <= k_ <= ops.len(),
+                alloc.wf(), alloc.allocations@.len() == ops.len(), a0.len() == ops.len(),
+                forall|s: int| 0 <= s < a0.len() ==> #[trigger] a0[s] == UNASSIGNED,
+                forall|s: int| 0 <= s < ops.len() ==> ((#[trigger] alloc.allocations@[s] != UNASSIGNED) == live(ops, k_ as int).contains(s)),
+                simf(alloc.allocations@, a0, alloc.out.tape@, 0, alloc.out.tape@.len() as int, run_fe(ops, k_ as int), run_fo(ops, k_ as int)),
+            decreases ops.len() - k_,
+         {
+            let op = ssa.tape[k_];
+
+            let ghost pre = alloc;
+            proof {
+                assert(ops[k_ as int] == op);
+            }
+            alloc.op(op);
+
+            proof {
+                let mid = pre.out.tape@.len() as int;
+                let hi = alloc.out.tape@.len() as int;
+                lemma_sim_ext(pre.allocations@, a0, pre.out.tape@, alloc.out.tape@, 0, mid, run_fe(ops, k_ as int), run_fo(ops, k_ as int));
+                lemma_sim_extend(alloc.allocations@, pre.allocations@, a0, alloc.out.tape@, mid, hi, ops, k_ as int);
+                assert forall|s: int| 0 <= s < ops.len() implies ((#[trigger] alloc.allocations@[s] != UNASSIGNED) == live(ops, k_ as int + 1).contains(s)) by {
+                    lemma_live_step(ops, k_ as int, s);
+                }
+            }
+            k_ += 1;
+        }
+
+        proof {
+            let n = ops.len() as int;
+            let tape = alloc.out.tape@;
+            reveal(simf);
+            assert forall|st: St, env: Env, inp: Seq<f32>|
+                (#[trigger] reg_run_rev(tape, 0, tape.len() as int, st, inp)).outs
+                    == (#[trigger] ssa_run_rev(ops, 0, n, Ss { env: env, outs: st.outs }, inp)).outs by {
+                assert(agree(alloc.allocations@, st.slots, env)) by {
+                    assert forall|s: int| 0 <= s < alloc.allocations@.len() && #[trigger] alloc.allocations@[s] != UNASSIGNED implies st.slots[alloc.allocations@[s] as int] == env[s] by {
+                        assert(live(ops, n).contains(s));
+                    }
+                }
+            }
+        }
+        alloc.finalize()
+    }
+}
 spec fn op_ok(op: RegOp, n: int, slots: int) -> bool {
     match op {
         RegOp::Load(r, m) => (r as int) < n && n <= (m as int) < slots,
@@ -2016,18 +2505,7 @@ type Env = Map<int, f32>;
 type FE = spec_fn(Env, Seq<f32>) -> Env;
 type FO = spec_fn(Map<int, f32>, Env, Seq<f32>) -> Map<int, f32>;
 
-spec fn reg_step(op: RegOp, st: St, inp: Seq<f32>) -> St {
-    match op {
-        RegOp::Load(r, m) => St { slots: st.slots.insert(r as int, st.slots[m as int]), outs: st.outs },
-        RegOp::Store(r, m) => St { slots: st.slots.insert(m as int, st.slots[r as int]), outs: st.outs },
-        RegOp::Input(r, i) => St { slots: st.slots.insert(r as int, inp[i as int]), outs: st.outs },
-        RegOp::Output(r, i) => St { slots: st.slots, outs: st.outs.insert(i as int, st.slots[r as int]) },
-        RegOp::CopyImm(r, c) => St { slots: st.slots.insert(r as int, c), outs: st.outs },
-        RegOp::NegReg(o, a) => St { slots: st.slots.insert(o as int, un_sem(1, st.slots[a as int])), outs: st.outs },
-        RegOp::AddRegReg(o, a, b) => St { slots: st.slots.insert(o as int, bin_sem(1, st.slots[a as int], st.slots[b as int])), outs: st.outs },
-        _ => st,   // prototype: remaining opcodes generated mechanically in the real spec
-    }
-}
+// (reg_step / ssa_fe / ssa_fo are generated: gen_sem.rs)
 /// run ops[lo..hi) from hi-1 down to lo (tapes are stored in reverse evaluation order)
 spec fn reg_run_rev(ops: Seq<RegOp>, lo: int, hi: int, st: St, inp: Seq<f32>) -> St
     decreases hi - lo
@@ -2317,6 +2795,453 @@ proof fn lemma_drop_last_contains<T>(s: Seq<T>, x: T)
     let k = choose|k: int| 0 <= k < s.len() && s[k] == x;
     assert(k < s.len() - 1);
     assert(s.drop_last()[k] == x);
+}
+// ---- generated from the enum variant list (base name -> tag) ----
+spec fn f_un(tag: int) -> spec_fn(f32) -> f32 { |v: f32| un_sem(tag, v) }
+spec fn f_id() -> spec_fn(f32) -> f32 { |v: f32| v }
+spec fn f_ri(tag: int, imm: f32) -> spec_fn(f32) -> f32 { |v: f32| bin_sem(tag, v, imm) }
+spec fn f_ir(tag: int, imm: f32) -> spec_fn(f32) -> f32 { |v: f32| bin_sem(tag, imm, v) }
+spec fn g_bin(tag: int) -> spec_fn(f32, f32) -> f32 { |a: f32, b: f32| bin_sem(tag, a, b) }
+spec fn c_imm(imm: f32) -> spec_fn(Seq<f32>) -> f32 { |i: Seq<f32>| imm }
+spec fn c_inp(k: int) -> spec_fn(Seq<f32>) -> f32 { |i: Seq<f32>| i[k] }
+spec fn reg_step(op: RegOp, st: St, inp: Seq<f32>) -> St {
+    match op {
+        RegOp::Output(r, i) => St { slots: st.slots, outs: st.outs.insert(i as int, st.slots[r as int]) },
+        RegOp::Input(r, i) => St { slots: st.slots.insert(r as int, c_inp(i as int)(inp)), outs: st.outs },
+        RegOp::CopyReg(o, a) => St { slots: st.slots.insert(o as int, f_id()(st.slots[a as int])), outs: st.outs },
+        RegOp::CopyImm(r, c) => St { slots: st.slots.insert(r as int, c_imm(c)(inp)), outs: st.outs },
+        RegOp::NegReg(o, a) => St { slots: st.slots.insert(o as int, f_un(3)(st.slots[a as int])), outs: st.outs },
+        RegOp::AbsReg(o, a) => St { slots: st.slots.insert(o as int, f_un(5)(st.slots[a as int])), outs: st.outs },
+        RegOp::RecipReg(o, a) => St { slots: st.slots.insert(o as int, f_un(7)(st.slots[a as int])), outs: st.outs },
+        RegOp::SqrtReg(o, a) => St { slots: st.slots.insert(o as int, f_un(9)(st.slots[a as int])), outs: st.outs },
+        RegOp::SquareReg(o, a) => St { slots: st.slots.insert(o as int, f_un(11)(st.slots[a as int])), outs: st.outs },
+        RegOp::FloorReg(o, a) => St { slots: st.slots.insert(o as int, f_un(13)(st.slots[a as int])), outs: st.outs },
+        RegOp::CeilReg(o, a) => St { slots: st.slots.insert(o as int, f_un(15)(st.slots[a as int])), outs: st.outs },
+        RegOp::RoundReg(o, a) => St { slots: st.slots.insert(o as int, f_un(17)(st.slots[a as int])), outs: st.outs },
+        RegOp::SinReg(o, a) => St { slots: st.slots.insert(o as int, f_un(19)(st.slots[a as int])), outs: st.outs },
+        RegOp::CosReg(o, a) => St { slots: st.slots.insert(o as int, f_un(21)(st.slots[a as int])), outs: st.outs },
+        RegOp::TanReg(o, a) => St { slots: st.slots.insert(o as int, f_un(23)(st.slots[a as int])), outs: st.outs },
+        RegOp::AsinReg(o, a) => St { slots: st.slots.insert(o as int, f_un(25)(st.slots[a as int])), outs: st.outs },
+        RegOp::AcosReg(o, a) => St { slots: st.slots.insert(o as int, f_un(27)(st.slots[a as int])), outs: st.outs },
+        RegOp::AtanReg(o, a) => St { slots: st.slots.insert(o as int, f_un(29)(st.slots[a as int])), outs: st.outs },
+        RegOp::ExpReg(o, a) => St { slots: st.slots.insert(o as int, f_un(31)(st.slots[a as int])), outs: st.outs },
+        RegOp::LnReg(o, a) => St { slots: st.slots.insert(o as int, f_un(33)(st.slots[a as int])), outs: st.outs },
+        RegOp::NotReg(o, a) => St { slots: st.slots.insert(o as int, f_un(35)(st.slots[a as int])), outs: st.outs },
+        RegOp::RandReg(o, a) => St { slots: st.slots.insert(o as int, f_un(37)(st.slots[a as int])), outs: st.outs },
+        RegOp::AddRegImm(o, a, imm) => St { slots: st.slots.insert(o as int, f_ri(38, imm)(st.slots[a as int])), outs: st.outs },
+        RegOp::MulRegImm(o, a, imm) => St { slots: st.slots.insert(o as int, f_ri(40, imm)(st.slots[a as int])), outs: st.outs },
+        RegOp::DivRegImm(o, a, imm) => St { slots: st.slots.insert(o as int, f_ri(42, imm)(st.slots[a as int])), outs: st.outs },
+        RegOp::DivImmReg(o, a, imm) => St { slots: st.slots.insert(o as int, f_ir(42, imm)(st.slots[a as int])), outs: st.outs },
+        RegOp::SubImmReg(o, a, imm) => St { slots: st.slots.insert(o as int, f_ir(44, imm)(st.slots[a as int])), outs: st.outs },
+        RegOp::SubRegImm(o, a, imm) => St { slots: st.slots.insert(o as int, f_ri(44, imm)(st.slots[a as int])), outs: st.outs },
+        RegOp::ModRegReg(o, a, b) => St { slots: st.slots.insert(o as int, g_bin(46)(st.slots[a as int], st.slots[b as int])), outs: st.outs },
+        RegOp::ModRegImm(o, a, imm) => St { slots: st.slots.insert(o as int, f_ri(46, imm)(st.slots[a as int])), outs: st.outs },
+        RegOp::AtanRegImm(o, a, imm) => St { slots: st.slots.insert(o as int, f_ri(28, imm)(st.slots[a as int])), outs: st.outs },
+        RegOp::CompareRegImm(o, a, imm) => St { slots: st.slots.insert(o as int, f_ri(48, imm)(st.slots[a as int])), outs: st.outs },
+        RegOp::MixRegImm(o, a, imm) => St { slots: st.slots.insert(o as int, f_ri(50, imm)(st.slots[a as int])), outs: st.outs },
+        RegOp::MinRegImm(o, a, imm) => St { slots: st.slots.insert(o as int, f_ri(52, imm)(st.slots[a as int])), outs: st.outs },
+        RegOp::MaxRegImm(o, a, imm) => St { slots: st.slots.insert(o as int, f_ri(54, imm)(st.slots[a as int])), outs: st.outs },
+        RegOp::AndRegImm(o, a, imm) => St { slots: st.slots.insert(o as int, f_ri(56, imm)(st.slots[a as int])), outs: st.outs },
+        RegOp::OrRegImm(o, a, imm) => St { slots: st.slots.insert(o as int, f_ri(58, imm)(st.slots[a as int])), outs: st.outs },
+        RegOp::ModImmReg(o, a, imm) => St { slots: st.slots.insert(o as int, f_ir(46, imm)(st.slots[a as int])), outs: st.outs },
+        RegOp::AtanImmReg(o, a, imm) => St { slots: st.slots.insert(o as int, f_ir(28, imm)(st.slots[a as int])), outs: st.outs },
+        RegOp::CompareImmReg(o, a, imm) => St { slots: st.slots.insert(o as int, f_ir(48, imm)(st.slots[a as int])), outs: st.outs },
+        RegOp::MixImmReg(o, a, imm) => St { slots: st.slots.insert(o as int, f_ir(50, imm)(st.slots[a as int])), outs: st.outs },
+        RegOp::AddRegReg(o, a, b) => St { slots: st.slots.insert(o as int, g_bin(38)(st.slots[a as int], st.slots[b as int])), outs: st.outs },
+        RegOp::MulRegReg(o, a, b) => St { slots: st.slots.insert(o as int, g_bin(40)(st.slots[a as int], st.slots[b as int])), outs: st.outs },
+        RegOp::DivRegReg(o, a, b) => St { slots: st.slots.insert(o as int, g_bin(42)(st.slots[a as int], st.slots[b as int])), outs: st.outs },
+        RegOp::SubRegReg(o, a, b) => St { slots: st.slots.insert(o as int, g_bin(44)(st.slots[a as int], st.slots[b as int])), outs: st.outs },
+        RegOp::CompareRegReg(o, a, b) => St { slots: st.slots.insert(o as int, g_bin(48)(st.slots[a as int], st.slots[b as int])), outs: st.outs },
+        RegOp::AtanRegReg(o, a, b) => St { slots: st.slots.insert(o as int, g_bin(28)(st.slots[a as int], st.slots[b as int])), outs: st.outs },
+        RegOp::MixRegReg(o, a, b) => St { slots: st.slots.insert(o as int, g_bin(50)(st.slots[a as int], st.slots[b as int])), outs: st.outs },
+        RegOp::MinRegReg(o, a, b) => St { slots: st.slots.insert(o as int, g_bin(52)(st.slots[a as int], st.slots[b as int])), outs: st.outs },
+        RegOp::MaxRegReg(o, a, b) => St { slots: st.slots.insert(o as int, g_bin(54)(st.slots[a as int], st.slots[b as int])), outs: st.outs },
+        RegOp::AndRegReg(o, a, b) => St { slots: st.slots.insert(o as int, g_bin(56)(st.slots[a as int], st.slots[b as int])), outs: st.outs },
+        RegOp::OrRegReg(o, a, b) => St { slots: st.slots.insert(o as int, g_bin(58)(st.slots[a as int], st.slots[b as int])), outs: st.outs },
+        RegOp::Load(r, m) => St { slots: st.slots.insert(r as int, st.slots[m as int]), outs: st.outs },
+        RegOp::Store(r, m) => St { slots: st.slots.insert(m as int, st.slots[r as int]), outs: st.outs },
+    }
+}
+spec fn ssa_fe(op: SsaOp) -> FE {
+    match op {
+        SsaOp::Output(a, i) => id_env(),
+        SsaOp::Input(o, i) => fe_def(o as int, c_inp(i as int)),
+        SsaOp::CopyReg(o, a) => fe_un(o as int, a as int, f_id()),
+        SsaOp::CopyImm(o, c) => fe_def(o as int, c_imm(c)),
+        SsaOp::NegReg(o, a) => fe_un(o as int, a as int, f_un(3)),
+        SsaOp::AbsReg(o, a) => fe_un(o as int, a as int, f_un(5)),
+        SsaOp::RecipReg(o, a) => fe_un(o as int, a as int, f_un(7)),
+        SsaOp::SqrtReg(o, a) => fe_un(o as int, a as int, f_un(9)),
+        SsaOp::SquareReg(o, a) => fe_un(o as int, a as int, f_un(11)),
+        SsaOp::FloorReg(o, a) => fe_un(o as int, a as int, f_un(13)),
+        SsaOp::CeilReg(o, a) => fe_un(o as int, a as int, f_un(15)),
+        SsaOp::RoundReg(o, a) => fe_un(o as int, a as int, f_un(17)),
+        SsaOp::SinReg(o, a) => fe_un(o as int, a as int, f_un(19)),
+        SsaOp::CosReg(o, a) => fe_un(o as int, a as int, f_un(21)),
+        SsaOp::TanReg(o, a) => fe_un(o as int, a as int, f_un(23)),
+        SsaOp::AsinReg(o, a) => fe_un(o as int, a as int, f_un(25)),
+        SsaOp::AcosReg(o, a) => fe_un(o as int, a as int, f_un(27)),
+        SsaOp::AtanReg(o, a) => fe_un(o as int, a as int, f_un(29)),
+        SsaOp::ExpReg(o, a) => fe_un(o as int, a as int, f_un(31)),
+        SsaOp::LnReg(o, a) => fe_un(o as int, a as int, f_un(33)),
+        SsaOp::NotReg(o, a) => fe_un(o as int, a as int, f_un(35)),
+        SsaOp::RandReg(o, a) => fe_un(o as int, a as int, f_un(37)),
+        SsaOp::AddRegImm(o, a, imm) => fe_un(o as int, a as int, f_ri(38, imm)),
+        SsaOp::MulRegImm(o, a, imm) => fe_un(o as int, a as int, f_ri(40, imm)),
+        SsaOp::DivRegImm(o, a, imm) => fe_un(o as int, a as int, f_ri(42, imm)),
+        SsaOp::DivImmReg(o, a, imm) => fe_un(o as int, a as int, f_ir(42, imm)),
+        SsaOp::SubImmReg(o, a, imm) => fe_un(o as int, a as int, f_ir(44, imm)),
+        SsaOp::SubRegImm(o, a, imm) => fe_un(o as int, a as int, f_ri(44, imm)),
+        SsaOp::ModRegReg(o, a, b) => fe_bin(o as int, a as int, b as int, g_bin(46)),
+        SsaOp::ModRegImm(o, a, imm) => fe_un(o as int, a as int, f_ri(46, imm)),
+        SsaOp::AtanRegImm(o, a, imm) => fe_un(o as int, a as int, f_ri(28, imm)),
+        SsaOp::CompareRegImm(o, a, imm) => fe_un(o as int, a as int, f_ri(48, imm)),
+        SsaOp::MixRegImm(o, a, imm) => fe_un(o as int, a as int, f_ri(50, imm)),
+        SsaOp::MinRegImm(o, a, imm) => fe_un(o as int, a as int, f_ri(52, imm)),
+        SsaOp::MaxRegImm(o, a, imm) => fe_un(o as int, a as int, f_ri(54, imm)),
+        SsaOp::AndRegImm(o, a, imm) => fe_un(o as int, a as int, f_ri(56, imm)),
+        SsaOp::OrRegImm(o, a, imm) => fe_un(o as int, a as int, f_ri(58, imm)),
+        SsaOp::ModImmReg(o, a, imm) => fe_un(o as int, a as int, f_ir(46, imm)),
+        SsaOp::AtanImmReg(o, a, imm) => fe_un(o as int, a as int, f_ir(28, imm)),
+        SsaOp::CompareImmReg(o, a, imm) => fe_un(o as int, a as int, f_ir(48, imm)),
+        SsaOp::MixImmReg(o, a, imm) => fe_un(o as int, a as int, f_ir(50, imm)),
+        SsaOp::AddRegReg(o, a, b) => fe_bin(o as int, a as int, b as int, g_bin(38)),
+        SsaOp::MulRegReg(o, a, b) => fe_bin(o as int, a as int, b as int, g_bin(40)),
+        SsaOp::DivRegReg(o, a, b) => fe_bin(o as int, a as int, b as int, g_bin(42)),
+        SsaOp::SubRegReg(o, a, b) => fe_bin(o as int, a as int, b as int, g_bin(44)),
+        SsaOp::CompareRegReg(o, a, b) => fe_bin(o as int, a as int, b as int, g_bin(48)),
+        SsaOp::AtanRegReg(o, a, b) => fe_bin(o as int, a as int, b as int, g_bin(28)),
+        SsaOp::MixRegReg(o, a, b) => fe_bin(o as int, a as int, b as int, g_bin(50)),
+        SsaOp::MinRegReg(o, a, b) => fe_bin(o as int, a as int, b as int, g_bin(52)),
+        SsaOp::MaxRegReg(o, a, b) => fe_bin(o as int, a as int, b as int, g_bin(54)),
+        SsaOp::AndRegReg(o, a, b) => fe_bin(o as int, a as int, b as int, g_bin(56)),
+        SsaOp::OrRegReg(o, a, b) => fe_bin(o as int, a as int, b as int, g_bin(58)),
+    }
+}
+spec fn ssa_fo(op: SsaOp) -> FO {
+    match op {
+        SsaOp::Output(a, i) => fo_output(i as int, a as int),
+        _ => id_outs(),
+    }
+}
+spec fn ssa_kind(op: SsaOp) -> int {
+    match op {
+        SsaOp::Output(..) => 0,
+        SsaOp::Input(..) => 1,
+        SsaOp::CopyReg(..) => 2,
+        SsaOp::CopyImm(..) => 1,
+        SsaOp::NegReg(..) => 2,
+        SsaOp::AbsReg(..) => 2,
+        SsaOp::RecipReg(..) => 2,
+        SsaOp::SqrtReg(..) => 2,
+        SsaOp::SquareReg(..) => 2,
+        SsaOp::FloorReg(..) => 2,
+        SsaOp::CeilReg(..) => 2,
+        SsaOp::RoundReg(..) => 2,
+        SsaOp::SinReg(..) => 2,
+        SsaOp::CosReg(..) => 2,
+        SsaOp::TanReg(..) => 2,
+        SsaOp::AsinReg(..) => 2,
+        SsaOp::AcosReg(..) => 2,
+        SsaOp::AtanReg(..) => 2,
+        SsaOp::ExpReg(..) => 2,
+        SsaOp::LnReg(..) => 2,
+        SsaOp::NotReg(..) => 2,
+        SsaOp::RandReg(..) => 2,
+        SsaOp::AddRegImm(..) => 3,
+        SsaOp::MulRegImm(..) => 3,
+        SsaOp::DivRegImm(..) => 3,
+        SsaOp::DivImmReg(..) => 3,
+        SsaOp::SubImmReg(..) => 3,
+        SsaOp::SubRegImm(..) => 3,
+        SsaOp::ModRegReg(..) => 4,
+        SsaOp::ModRegImm(..) => 3,
+        SsaOp::AtanRegImm(..) => 3,
+        SsaOp::CompareRegImm(..) => 3,
+        SsaOp::MixRegImm(..) => 3,
+        SsaOp::MinRegImm(..) => 3,
+        SsaOp::MaxRegImm(..) => 3,
+        SsaOp::AndRegImm(..) => 3,
+        SsaOp::OrRegImm(..) => 3,
+        SsaOp::ModImmReg(..) => 3,
+        SsaOp::AtanImmReg(..) => 3,
+        SsaOp::CompareImmReg(..) => 3,
+        SsaOp::MixImmReg(..) => 3,
+        SsaOp::AddRegReg(..) => 4,
+        SsaOp::MulRegReg(..) => 4,
+        SsaOp::DivRegReg(..) => 4,
+        SsaOp::SubRegReg(..) => 4,
+        SsaOp::CompareRegReg(..) => 4,
+        SsaOp::AtanRegReg(..) => 4,
+        SsaOp::MixRegReg(..) => 4,
+        SsaOp::MinRegReg(..) => 4,
+        SsaOp::MaxRegReg(..) => 4,
+        SsaOp::AndRegReg(..) => 4,
+        SsaOp::OrRegReg(..) => 4,
+    }
+}
+spec fn ssa_o(op: SsaOp) -> int {
+    match op {
+        SsaOp::Output(a, _) => a as int,
+        SsaOp::Input(o, _) => o as int,
+        SsaOp::CopyReg(o, _) => o as int,
+        SsaOp::CopyImm(o, _) => o as int,
+        SsaOp::NegReg(o, _) => o as int,
+        SsaOp::AbsReg(o, _) => o as int,
+        SsaOp::RecipReg(o, _) => o as int,
+        SsaOp::SqrtReg(o, _) => o as int,
+        SsaOp::SquareReg(o, _) => o as int,
+        SsaOp::FloorReg(o, _) => o as int,
+        SsaOp::CeilReg(o, _) => o as int,
+        SsaOp::RoundReg(o, _) => o as int,
+        SsaOp::SinReg(o, _) => o as int,
+        SsaOp::CosReg(o, _) => o as int,
+        SsaOp::TanReg(o, _) => o as int,
+        SsaOp::AsinReg(o, _) => o as int,
+        SsaOp::AcosReg(o, _) => o as int,
+        SsaOp::AtanReg(o, _) => o as int,
+        SsaOp::ExpReg(o, _) => o as int,
+        SsaOp::LnReg(o, _) => o as int,
+        SsaOp::NotReg(o, _) => o as int,
+        SsaOp::RandReg(o, _) => o as int,
+        SsaOp::AddRegImm(o, _, _) => o as int,
+        SsaOp::MulRegImm(o, _, _) => o as int,
+        SsaOp::DivRegImm(o, _, _) => o as int,
+        SsaOp::DivImmReg(o, _, _) => o as int,
+        SsaOp::SubImmReg(o, _, _) => o as int,
+        SsaOp::SubRegImm(o, _, _) => o as int,
+        SsaOp::ModRegReg(o, _, _) => o as int,
+        SsaOp::ModRegImm(o, _, _) => o as int,
+        SsaOp::AtanRegImm(o, _, _) => o as int,
+        SsaOp::CompareRegImm(o, _, _) => o as int,
+        SsaOp::MixRegImm(o, _, _) => o as int,
+        SsaOp::MinRegImm(o, _, _) => o as int,
+        SsaOp::MaxRegImm(o, _, _) => o as int,
+        SsaOp::AndRegImm(o, _, _) => o as int,
+        SsaOp::OrRegImm(o, _, _) => o as int,
+        SsaOp::ModImmReg(o, _, _) => o as int,
+        SsaOp::AtanImmReg(o, _, _) => o as int,
+        SsaOp::CompareImmReg(o, _, _) => o as int,
+        SsaOp::MixImmReg(o, _, _) => o as int,
+        SsaOp::AddRegReg(o, _, _) => o as int,
+        SsaOp::MulRegReg(o, _, _) => o as int,
+        SsaOp::DivRegReg(o, _, _) => o as int,
+        SsaOp::SubRegReg(o, _, _) => o as int,
+        SsaOp::CompareRegReg(o, _, _) => o as int,
+        SsaOp::AtanRegReg(o, _, _) => o as int,
+        SsaOp::MixRegReg(o, _, _) => o as int,
+        SsaOp::MinRegReg(o, _, _) => o as int,
+        SsaOp::MaxRegReg(o, _, _) => o as int,
+        SsaOp::AndRegReg(o, _, _) => o as int,
+        SsaOp::OrRegReg(o, _, _) => o as int,
+    }
+}
+spec fn ssa_a(op: SsaOp) -> int {
+    match op {
+        SsaOp::CopyReg(_, a) => a as int,
+        SsaOp::NegReg(_, a) => a as int,
+        SsaOp::AbsReg(_, a) => a as int,
+        SsaOp::RecipReg(_, a) => a as int,
+        SsaOp::SqrtReg(_, a) => a as int,
+        SsaOp::SquareReg(_, a) => a as int,
+        SsaOp::FloorReg(_, a) => a as int,
+        SsaOp::CeilReg(_, a) => a as int,
+        SsaOp::RoundReg(_, a) => a as int,
+        SsaOp::SinReg(_, a) => a as int,
+        SsaOp::CosReg(_, a) => a as int,
+        SsaOp::TanReg(_, a) => a as int,
+        SsaOp::AsinReg(_, a) => a as int,
+        SsaOp::AcosReg(_, a) => a as int,
+        SsaOp::AtanReg(_, a) => a as int,
+        SsaOp::ExpReg(_, a) => a as int,
+        SsaOp::LnReg(_, a) => a as int,
+        SsaOp::NotReg(_, a) => a as int,
+        SsaOp::RandReg(_, a) => a as int,
+        SsaOp::AddRegImm(_, a, _) => a as int,
+        SsaOp::MulRegImm(_, a, _) => a as int,
+        SsaOp::DivRegImm(_, a, _) => a as int,
+        SsaOp::DivImmReg(_, a, _) => a as int,
+        SsaOp::SubImmReg(_, a, _) => a as int,
+        SsaOp::SubRegImm(_, a, _) => a as int,
+        SsaOp::ModRegReg(_, a, _) => a as int,
+        SsaOp::ModRegImm(_, a, _) => a as int,
+        SsaOp::AtanRegImm(_, a, _) => a as int,
+        SsaOp::CompareRegImm(_, a, _) => a as int,
+        SsaOp::MixRegImm(_, a, _) => a as int,
+        SsaOp::MinRegImm(_, a, _) => a as int,
+        SsaOp::MaxRegImm(_, a, _) => a as int,
+        SsaOp::AndRegImm(_, a, _) => a as int,
+        SsaOp::OrRegImm(_, a, _) => a as int,
+        SsaOp::ModImmReg(_, a, _) => a as int,
+        SsaOp::AtanImmReg(_, a, _) => a as int,
+        SsaOp::CompareImmReg(_, a, _) => a as int,
+        SsaOp::MixImmReg(_, a, _) => a as int,
+        SsaOp::AddRegReg(_, a, _) => a as int,
+        SsaOp::MulRegReg(_, a, _) => a as int,
+        SsaOp::DivRegReg(_, a, _) => a as int,
+        SsaOp::SubRegReg(_, a, _) => a as int,
+        SsaOp::CompareRegReg(_, a, _) => a as int,
+        SsaOp::AtanRegReg(_, a, _) => a as int,
+        SsaOp::MixRegReg(_, a, _) => a as int,
+        SsaOp::MinRegReg(_, a, _) => a as int,
+        SsaOp::MaxRegReg(_, a, _) => a as int,
+        SsaOp::AndRegReg(_, a, _) => a as int,
+        SsaOp::OrRegReg(_, a, _) => a as int,
+        _ => 0,
+    }
+}
+spec fn ssa_b(op: SsaOp) -> int {
+    match op {
+        SsaOp::ModRegReg(_, _, b) => b as int,
+        SsaOp::AddRegReg(_, _, b) => b as int,
+        SsaOp::MulRegReg(_, _, b) => b as int,
+        SsaOp::DivRegReg(_, _, b) => b as int,
+        SsaOp::SubRegReg(_, _, b) => b as int,
+        SsaOp::CompareRegReg(_, _, b) => b as int,
+        SsaOp::AtanRegReg(_, _, b) => b as int,
+        SsaOp::MixRegReg(_, _, b) => b as int,
+        SsaOp::MinRegReg(_, _, b) => b as int,
+        SsaOp::MaxRegReg(_, _, b) => b as int,
+        SsaOp::AndRegReg(_, _, b) => b as int,
+        SsaOp::OrRegReg(_, _, b) => b as int,
+        _ => 0,
+    }
+}
+spec fn new_live(op: SsaOp, was: bool, s: int) -> bool {
+    let k = ssa_kind(op);
+    if k == 0 { s == ssa_o(op) || was }
+    else if k == 1 { s != ssa_o(op) && was }
+    else if k == 2 || k == 3 { s == ssa_a(op) || (s != ssa_o(op) && was) }
+    else { s == ssa_a(op) || s == ssa_b(op) || (s != ssa_o(op) && was) }
+}
+proof fn lemma_live_step(ops: Seq<SsaOp>, j: int, s: int)
+    requires 0 <= j < ops.len()
+    ensures live(ops, j + 1).contains(s) == new_live(ops[j], live(ops, j).contains(s), s)
+{}
+impl<const N: usize> RegisterAllocator<N> {
+    /// precondition of lowering one SSA op (total mode)
+    spec fn op_pre(&self, op: SsaOp) -> bool {
+        let len = self.allocations@.len() as int;
+        let k = ssa_kind(op);
+        &&& 0 <= ssa_o(op) < len
+        &&& k >= 1 ==> self.allocations@[ssa_o(op)] != UNASSIGNED
+        &&& k >= 2 ==> 0 <= ssa_a(op) < len && ssa_a(op) != ssa_o(op)
+        &&& k == 4 ==> 0 <= ssa_b(op) < len && ssa_b(op) != ssa_o(op)
+    }
+    spec fn op_post(&self, pre: &Self, op: SsaOp) -> bool {
+        &&& self.wf()
+        &&& self.allocations@.len() == pre.allocations@.len()
+        &&& self.out.tape@.len() >= pre.out.tape@.len()
+        &&& forall|k: int| 0 <= k < pre.out.tape@.len() ==> #[trigger] self.out.tape@[k] == pre.out.tape@[k]
+        &&& simf(self.allocations@, pre.allocations@, self.out.tape@, pre.out.tape@.len() as int, self.out.tape@.len() as int, ssa_fe(op), ssa_fo(op))
+        &&& forall|s: int| 0 <= s < pre.allocations@.len() ==>
+                ((#[trigger] self.allocations@[s] != UNASSIGNED) == new_live(op, pre.allocations@[s] != UNASSIGNED, s))
+    }
+}
+
+// ---------------- whole-tape semantics and the top theorem ----------------
+struct Ss { env: Env, outs: Map<int, f32> }
+spec fn ssa_step(op: SsaOp, s: Ss, inp: Seq<f32>) -> Ss {
+    Ss { env: ssa_fe(op)(s.env, inp), outs: ssa_fo(op)(s.outs, s.env, inp) }
+}
+/// run ops[lo..hi) from hi-1 down to lo (SSA tapes are stored root-first)
+spec fn ssa_run_rev(ops: Seq<SsaOp>, lo: int, hi: int, s: Ss, inp: Seq<f32>) -> Ss
+    decreases hi - lo
+{
+    if hi <= lo { s } else { ssa_run_rev(ops, lo, hi - 1, ssa_step(ops[hi - 1], s, inp), inp) }
+}
+spec fn run_fe(ops: Seq<SsaOp>, j: int) -> FE {
+    |e: Env, i: Seq<f32>| ssa_run_rev(ops, 0, j, Ss { env: e, outs: Map::empty() }, i).env
+}
+spec fn run_fo(ops: Seq<SsaOp>, j: int) -> FO {
+    |o: Map<int, f32>, e: Env, i: Seq<f32>| ssa_run_rev(ops, 0, j, Ss { env: e, outs: o }, i).outs
+}
+/// the environment part of a run does not depend on the outputs accumulated so far
+proof fn lemma_env_indep(ops: Seq<SsaOp>, j: int, e: Env, o1: Map<int, f32>, o2: Map<int, f32>, inp: Seq<f32>)
+    requires 0 <= j
+    ensures ssa_run_rev(ops, 0, j, Ss { env: e, outs: o1 }, inp).env == ssa_run_rev(ops, 0, j, Ss { env: e, outs: o2 }, inp).env
+    decreases j
+{
+    if j > 0 {
+        let s1 = ssa_step(ops[j - 1], Ss { env: e, outs: o1 }, inp);
+        let s2 = ssa_step(ops[j - 1], Ss { env: e, outs: o2 }, inp);
+        lemma_env_indep(ops, j - 1, s1.env, s1.outs, s2.outs, inp);
+    }
+}
+/// slots that are live (bound in the allocator) after lowering ops[0..j)
+spec fn live(ops: Seq<SsaOp>, j: int) -> Set<int>
+    decreases j
+{
+    if j <= 0 { Set::empty() } else {
+        let op = ops[j - 1];
+        let l = live(ops, j - 1);
+        let k = ssa_kind(op);
+        if k == 0 { l.insert(ssa_o(op)) }
+        else if k == 1 { l.remove(ssa_o(op)) }
+        else if k == 2 || k == 3 { l.remove(ssa_o(op)).insert(ssa_a(op)) }
+        else { l.remove(ssa_o(op)).insert(ssa_a(op)).insert(ssa_b(op)) }
+    }
+}
+/// well-formed SSA tape of `n` slots: every definition is of a currently-live slot distinct from its
+/// arguments, all indices are in range, and nothing is live before the first evaluated op
+spec fn ssa_wf(ops: Seq<SsaOp>, n: int) -> bool {
+    &&& forall|j: int| 0 <= j < ops.len() ==> {
+            let op = #[trigger] ops[j];
+            let k = ssa_kind(op);
+            &&& 0 <= ssa_o(op) < n
+            &&& k >= 1 ==> live(ops, j).contains(ssa_o(op))
+            &&& k >= 2 ==> 0 <= ssa_a(op) < n && ssa_a(op) != ssa_o(op)
+            &&& k == 4 ==> 0 <= ssa_b(op) < n && ssa_b(op) != ssa_o(op)
+        }
+    &&& live(ops, ops.len() as int) =~= Set::empty()
+}
+proof fn lemma_sim_comp(a2: Seq<u32>, a1: Seq<u32>, a0: Seq<u32>, tape: Seq<RegOp>, lo: int, mid: int, hi: int,
+                        fe2: FE, fo2: FO, fe1: FE, fo1: FO, fe: FE, fo: FO)
+    requires simf(a2, a1, tape, mid, hi, fe2, fo2), simf(a1, a0, tape, lo, mid, fe1, fo1), lo <= mid <= hi,
+        forall|e: Env, i: Seq<f32>| #[trigger] fe(e, i) == fe1(fe2(e, i), i),
+        forall|o: Map<int, f32>, e: Env, i: Seq<f32>| #[trigger] fo(o, e, i) == fo1(fo2(o, e, i), fe2(e, i), i),
+    ensures simf(a2, a0, tape, lo, hi, fe, fo)
+{
+    reveal(simf);
+    assert forall|st: St, env: Env, inp: Seq<f32>| #[trigger] agree(a2, st.slots, env) implies
+        agree(a0, (#[trigger] reg_run_rev(tape, lo, hi, st, inp)).slots, fe(env, inp))
+        && reg_run_rev(tape, lo, hi, st, inp).outs == fo(st.outs, env, inp) by {
+        let r1 = reg_run_rev(tape, mid, hi, st, inp);
+        assert(agree(a1, r1.slots, fe2(env, inp)));
+        lemma_run_split(tape, lo, mid, hi, st, inp);
+        let r0 = reg_run_rev(tape, lo, mid, r1, inp);
+        assert(agree(a0, r0.slots, fe1(fe2(env, inp), inp)));
+        assert(fe(env, inp) == fe1(fe2(env, inp), inp));
+        assert(fo(st.outs, env, inp) == fo1(fo2(st.outs, env, inp), fe2(env, inp), inp));
+    }
+}
+/// one more SSA op processed: compose the whole-prefix simulation with the step simulation
+proof fn lemma_sim_extend(a2: Seq<u32>, a1: Seq<u32>, a0: Seq<u32>, tape: Seq<RegOp>, mid: int, hi: int, ops: Seq<SsaOp>, j: int)
+    requires 0 <= j < ops.len(), 0 <= mid <= hi,
+        simf(a2, a1, tape, mid, hi, ssa_fe(ops[j]), ssa_fo(ops[j])),
+        simf(a1, a0, tape, 0, mid, run_fe(ops, j), run_fo(ops, j)),
+    ensures simf(a2, a0, tape, 0, hi, run_fe(ops, j + 1), run_fo(ops, j + 1))
+{
+    let fe2 = ssa_fe(ops[j]); let fo2 = ssa_fo(ops[j]);
+    let fe1 = run_fe(ops, j); let fo1 = run_fo(ops, j);
+    let fe = run_fe(ops, j + 1); let fo = run_fo(ops, j + 1);
+    assert forall|e: Env, i: Seq<f32>| #[trigger] fe(e, i) == fe1(fe2(e, i), i) by {
+        let s0 = Ss { env: e, outs: Map::empty() };
+        let s1 = ssa_step(ops[j], s0, i);
+        assert(ssa_run_rev(ops, 0, j + 1, s0, i) == ssa_run_rev(ops, 0, j, s1, i));
+        lemma_env_indep(ops, j, s1.env, s1.outs, Map::empty(), i);
+    }
+    assert forall|o: Map<int, f32>, e: Env, i: Seq<f32>| #[trigger] fo(o, e, i) == fo1(fo2(o, e, i), fe2(e, i), i) by {
+        let s0 = Ss { env: e, outs: o };
+        let s1 = ssa_step(ops[j], s0, i);
+        assert(ssa_run_rev(ops, 0, j + 1, s0, i) == ssa_run_rev(ops, 0, j, s1, i));
+    }
+    lemma_sim_comp(a2, a1, a0, tape, 0, mid, hi, fe2, fo2, fe1, fo1, fe, fo);
+}
+proof fn lemma_sim_start(a: Seq<u32>, tape: Seq<RegOp>, ops: Seq<SsaOp>)
+    ensures simf(a, a, tape, 0, 0, run_fe(ops, 0), run_fo(ops, 0))
+{
+    reveal(simf);
 }
 
 proof fn lemma_poke_head(o: Seq<u8>, i: u8)
